@@ -58,21 +58,27 @@ def rx_size_of(tu):
 
 def build_c(run):
     for mode, extra, rx_expected in BUILDS:
-        tu, _ = parse(mode)
-        rx = rx_size_of(tu)
-        for nm, val in CT.STATE_NAMES.items():
-            if tu.enum_by_name.get(nm) != val:
-                raise K.Unsupported("enum rx_state: %s is %r in this build, the case table of contracts/c/sercomm.py assumes %d" % (nm, tu.enum_by_name.get(nm), val))
-        ex = {"build": mode, "rx_size": rx}
-        n0 = len(run.obls)
-        K.verify(run, ID, tu, CT.SendMsg, tag_extra=ex)
-        K.verify(run, ID, tu, CT.DrvPull, tag_extra=ex)
-        K.verify(run, ID, tu, CT.DrvRxChar(rx), tag_extra=ex)
-        K.verify(run, ID, tu, CT.RegisterRxCb, tag_extra=ex)
-        for o in run.obls[n0:]:
-            o.case = "%s,%s build" % (o.case, mode) if o.case else "%s build" % mode       # the two builds have the same paths: keep their names apart
-        coupling(run, mode, rx)
-        resync(run, mode, rx)
+        def prepared():
+            tu, _ = parse(mode)
+            rx = rx_size_of(tu)
+            for nm, val in CT.STATE_NAMES.items():
+                if tu.enum_by_name.get(nm) != val:
+                    raise K.Unsupported("enum rx_state: %s is %r in this build, the case table of contracts/c/sercomm.py assumes %d" % (nm, tu.enum_by_name.get(nm), val))
+            return tu, rx
+
+        def one(mk):
+            tu, rx = prepared()
+            n0 = len(run.obls)
+            K.verify(run, ID, tu, mk(rx), tag_extra={"build": mode, "rx_size": rx})
+            for o in run.obls[n0:]:
+                o.case = "%s,%s build" % (o.case, mode) if o.case else "%s build" % mode       # the two builds have the same paths: keep their names apart
+        # one section per function and build: a step contract that cannot be bound to a refactored function is out of reach on its own
+        for nm, mk in (("sercomm_sendmsg", lambda rx: CT.SendMsg), ("sercomm_drv_pull", lambda rx: CT.DrvPull), ("sercomm_drv_rx_char", lambda rx: CT.DrvRxChar(rx)),
+                       ("sercomm_register_rx_cb", lambda rx: CT.RegisterRxCb)):
+            K.sect(run, "%s (%s build)" % (nm, mode), one, mk)
+        # the spec-level stages reason about the step relations of the contracts; the buffer size is the build's
+        K.sect(run, "coupling invariant (%s build)" % mode, lambda: coupling(run, mode, prepared()[1]))
+        K.sect(run, "resync lemma (%s build)" % mode, lambda: resync(run, mode, prepared()[1]))
     run.assume("handlers registered with sercomm_register_rx_cb take ownership of the message and do not call back into sercomm "
                "(the echo handler of DLCI 128, sercomm_sendmsg itself, re-queues the message: outside the delivery statement)")
     run.assume("initial state: C zero-initialisation of the static `sercomm` object (tx.msg == rx.msg == NULL, both states 0 == WAIT_START); "
